@@ -69,7 +69,11 @@ def check(c, c0, s0, raw, ops, tag):
     if impl['outcome'][0] == 'success' and impl['file'] is not None:
         recs = progdiff.pcap_records(impl['file'])
         frames = [r[1] if raw else r[1][14:] for r in recs]
-        r = c.model.ask('oracle tcp %d %d %d %d %s %s' % (CL[0], CL[1], c0, s0, enc or 'x', ','.join(f.hex() for f in frames) or '-'))
+        if not ops:
+            # an empty history emits nothing; there is no segment for the stream oracle to judge
+            r = 'ok' if not frames else 'bad spurious-segments %d segments emitted by a flow on which no operation was performed' % len(frames)
+        else:
+            r = c.model.ask('oracle tcp %d %d %d %d %s %s' % (CL[0], CL[1], c0, s0, enc, ','.join(f.hex() for f in frames) or '-'))
         if not r.startswith('ok'):
             sig = 'tcp:' + r.split(' ')[1] if ' ' in r else 'tcp:?'
             c.violation(sig, 'C04 spec rejects the emitted segments: ' + r[:400], dict(src=src.decode(), c0=c0, s0=s0, ops=enc))
